@@ -112,3 +112,110 @@ contract('mapproxy.image.tile:TileSplitter.get_tile', props=['C01', 'C04'],
          opaque_spec={'crop': {'pure': True}, 'create_image': {'pure': True}, 'paste': {'pure': True}, 'ImageSource': {'pure': True}},
          requires=['tile_size[0] >= 1 and tile_size[1] >= 1'],
          trace=[_crop_alignment])
+
+
+# ---- same-SRS extraction of the requested window from a source image: ImageTransformer._transform_simple -------------------
+cls('mapproxy.image.transform:ImageTransformer', fields=dict(src_srs='opaque', dst_srs='opaque', dst_bbox='opaque',
+                                                             dst_size='opaque', max_px_err='opaque'))
+
+
+def _simple_window(ex, st, post, result):
+    """the pixel window taken from the source image is the exact affine image of the requested bbox; the unresampled
+    crop shortcut is used only when BOTH resolutions equal the source's (to a tenth of a pixel over the image)"""
+    import z3
+    from pyvc.values import to_real, to_int, VSeq
+    e = post.env
+    sb = [x.t for x in e['src_bbox'].items]
+    db = [x.t for x in e['dst_bbox'].items]
+    ds = [to_real(x) for x in e['dst_size'].items]
+    ssz = ex.opaque_field(st, e['src_img'], 'size')
+    sw, sh = to_real(ssz.items[0]), to_real(ssz.items[1])
+    # exact window (source pixel coordinates, y down) of the destination bbox
+    minx = (db[0] - sb[0]) * sw / (sb[2] - sb[0])
+    miny = (sb[3] - db[3]) * sh / (sb[3] - sb[1])
+    maxx = (db[2] - sb[0]) * sw / (sb[2] - sb[0])
+    maxy = (sb[3] - db[1]) * sh / (sb[3] - sb[1])
+    crops = T.evs(st, 'crop')
+    trs = T.evs(st, 'transform')
+
+    def zabs(t):
+        return z3.If(t >= 0, t, -t)
+    sres = ((sb[0] - sb[2]) / sw, (sb[1] - sb[3]) / sh)
+    dres = ((db[0] - db[2]) / ds[0], (db[1] - db[3]) / ds[1])
+    both = z3.And(zabs(sres[0] - dres[0]) < zabs(dres[0] / (ds[0] * 10)), zabs(sres[1] - dres[1]) < zabs(dres[1] / (ds[1] * 10)))
+    goal = z3.BoolVal(len(crops) + len(trs) == 1)
+    if crops and not trs:
+        box = crops[0][1].args[0]
+        ok = isinstance(box, VSeq) and box.concrete and len(box.items) == 4
+        goal = z3.And(goal, z3.BoolVal(ok))
+        if ok:
+            x0, y0, x1, y1 = [to_real(b) for b in box.items]
+            goal = z3.And(goal, both, zabs(x0 - minx) <= z3.RealVal('0.5000001'), zabs(y0 - miny) <= z3.RealVal('0.5000001'),
+                          x1 - x0 == ds[0], y1 - y0 == ds[1])
+    if trs and not crops:
+        a = trs[0][1].args
+        ok = len(a) >= 3 and isinstance(a[2], VSeq) and a[2].concrete and len(a[2].items) == 4 and a[0] is e['dst_size']
+        goal = z3.And(goal, z3.BoolVal(bool(ok)))
+        if ok:
+            q = [to_real(b) for b in a[2].items]
+            goal = z3.And(goal, q[0] == minx, q[1] == miny, q[2] == maxx, q[3] == maxy)
+    yield ('window_is_affine_image_of_request', goal,
+           'resampling: EXTENT quad = exact source-pixel image of dst_bbox, output size = dst_size; crop shortcut: only if the '
+           'x AND the y resolution match the source, box = that window rounded to whole pixels, dst_size wide and high')
+
+
+contract('mapproxy.image.transform:ImageTransformer._transform_simple', props=['C01'],
+         types=dict(src_img='opaque', src_bbox='tuple[real,real,real,real]', dst_size='tuple[int,int]',
+                    dst_bbox='tuple[real,real,real,real]', image_opts='opaque'), returns='opaque', default_callee='opaque',
+         opaque_fields={'size': 'tuple[int,int]'}, stable_fields=['size'],
+         inline=['make_lin_transf', 'func'],
+         opaque_spec={'as_image': {'pure': True}, 'crop': {'pure': True}, 'transform': {'pure': True}, 'img_for_resampling': {'pure': True},
+                      'ImageSource': {'pure': True}},
+         raises={'KeyError': True},
+         requires=['src_bbox[0] < src_bbox[2] and src_bbox[1] < src_bbox[3]', 'dst_bbox[0] < dst_bbox[2] and dst_bbox[1] < dst_bbox[3]',
+                   'dst_size[0] > 0 and dst_size[1] > 0', 'src_img.size[0] > 0 and src_img.size[1] > 0'],
+         trace=[_simple_window])
+
+
+# ---- cascaded source in an unsupported SRS: what is asked upstream is what is reprojected back ------------------------------
+def _transformed_protocol(ex, st, post, result):
+    import z3
+    from pyvc.values import eq, VSeq
+    q = post.env['query']
+    best = T.evs(st, 'best_srs')
+    tb = T.evs(st, 'transform_bbox_to')
+    mq = T.evs(st, 'MapQuery')
+    ups = T.evs(st, 'retrieve', '_get_sub_query', 'WMSSource._get_sub_query')
+    it = T.evs(st, 'ImageTransformer')
+    tr = T.evs(st, 'transform')
+    ok = len(best) == 1 and len(tb) == 1 and len(mq) == 1 and len(ups) == 1 and len(it) == 1 and len(tr) == 1
+    goal = z3.BoolVal(ok)
+    if ok:
+        src_srs, src_bbox, m = best[0][1].result, tb[0][1].result, mq[0][1]
+        up = ups[0][1]
+        up_args = [a for a in up.args if a is not post.env['self']]
+        ok2 = (m.args[0] is src_bbox and m.args[2] is src_srs           # the upstream query: source bbox in the source SRS
+               and up_args and up_args[0] is m.result                    # ... and THAT query goes upstream (direct or clipped)
+               and it[0][1].args[0] is src_srs                           # reprojection from the source SRS ...
+               and tr[0][1].args[1] is src_bbox                          # ... of an image that covers the source bbox
+               and tb[0][1].args[0] is src_srs and ups[0][0] < tr[0][0])
+        goal = z3.And(goal, z3.BoolVal(bool(ok2)))
+        if ok2:
+            goal = z3.And(goal,
+                          eq(it[0][1].args[1], ex.opaque_field_at(st, it[0][1], q, 'srs')),       # ... to the SRS of the request
+                          eq(tb[0][1].args[1], ex.opaque_field_at(st, tb[0][1], q, 'bbox')),     # source bbox = image of the request bbox
+                          eq(tr[0][1].args[2], ex.opaque_field_at(st, tr[0][1], q, 'size')),
+                          eq(tr[0][1].args[3], ex.opaque_field_at(st, tr[0][1], q, 'bbox')))
+    yield ('upstream_query_is_what_gets_reprojected', goal,
+           'src_bbox = request bbox transformed to best_srs; the query sent upstream (directly or clipped to the coverage) is '
+           'MapQuery(src_bbox, .., src_srs); the answer is reprojected from (src_srs, src_bbox) to (request srs, bbox, size)')
+
+
+contract('mapproxy.source.wms:WMSSource._get_transformed', props=['C01', 'C17'],
+         types=dict(query='opaque', format='opaque'), returns='opaque', default_callee='opaque',
+         opaque_fields=dict(c17_upstream.QF), stable_fields=['bbox', 'size', 'srs', 'dimensions'],
+         opaque_spec=dict(c17_upstream.SPEC, ImageTransformer={'pure': True}, transform={'pure': True},
+                          _get_sub_query={'raises': ['BlankImage']}),
+         opaque=['_get_sub_query', 'ImageTransformer', 'MapQuery'],
+         raises={'HTTPClientError': True, 'BlankImage': True, 'ZeroDivisionError': True},
+         trace=[_transformed_protocol])
